@@ -137,6 +137,13 @@ def main():
             for t in ['none', TRANSFORMS[1 + (seed + v) % 3]]:
                 run.case(R.jhash(ad, style, t), nontrivial(ad), {'seed': seed, 'transform': t, 'features': R.ad_features(ad)} if t != 'none' else None,
                          lambda: case_generated(run, ad, style, t), {'kind': 'verilog-rt', 'seed': seed, 'ad': ad, 'style': style, 'transform': t})
+    if cfg.get('corners'):
+        for name, ad in R.corner_ads('verilog'):
+            for v in range(3):
+                style = V.make_style('corner', v)
+                for t in TRANSFORMS:
+                    run.case(R.jhash('corner', name, style, t), True, None, lambda: case_generated(run, ad, style, t),
+                             {'kind': 'verilog-rt', 'corner': name, 'ad': ad, 'style': style, 'transform': t})
     small = cfg.get('transform_files_below', 12000)
     for z in cfg.get('files', []):
         ts = ['none'] + (TRANSFORMS[1:] if os.path.getsize(z) <= small else [])
